@@ -24,12 +24,16 @@ type rframe struct {
 // realize turns a behaviour of the implementation-shaped model into a NeoVM script.  Every abstract
 // mutation is mapped onto one of the instruction sequences implementing it, chosen round-robin
 // (variant counter v).  marks are the model's predictions at the action boundaries.
-func realize(h []MStep, v int) ([]byte, []mark, error) {
+func realize(h []MStep, v int) ([]byte, []mark, bool, error) {
+	script, marks, expectFault, err := realize1(h, v)
+	return script, marks, expectFault, err
+}
+
+func realize1(h []MStep, v int) (script []byte, marks []mark, expectFault bool, err error) {
 	if len(h) == 0 || h[0].Op != "init" {
-		return nil, nil, fmt.Errorf("behaviour does not start with init")
+		return nil, nil, false, fmt.Errorf("behaviour does not start with init")
 	}
 	a := &asm{}
-	var marks []mark
 	ns := h[0].NS
 	if ns > 0 {
 		a.op1(INITSSLOT, ns)
@@ -60,6 +64,39 @@ func realize(h []MStep, v int) ([]byte, []mark, error) {
 			a.op1(base0+7, j)
 		}
 	}
+	// caught continues in the catch block of the innermost handler, `unwound` frames below the current one:
+	// the frames above it are gone, the catch block starts right here and ENDTRY leaves the try block.
+	caught := func(unwound int) error {
+		j := len(frames) - 1 - unwound
+		if j < 0 || frames[j].tryAt < 0 {
+			return fmt.Errorf("exception without a handler")
+		}
+		for k := len(frames) - 1; k > j; k-- {
+			loose = append(loose, frames[k].jmpAt*2)
+			if frames[k].tryAt >= 0 {
+				loose = append(loose, frames[k].tryAt*2)
+			}
+		}
+		frames = frames[:j+1]
+		a.fix(frames[j].tryAt, 0, a.pos()) // catch block starts here
+		frames[j].tryAt = -1
+		a.op1(ENDTRY, 2)
+		return nil
+	}
+	// oorIndex turns "first index out of range" (0-based: the length) into one of several such indexes
+	oorIndex := func(length int) int64 {
+		switch pick(4) {
+		case 0:
+			return int64(length)
+		case 1:
+			return int64(length + 1 + pick(5))
+		case 2:
+			return -1
+		default:
+			return int64(length)
+		}
+	}
+steps:
 	for i, s := range h[1:] {
 		switch s.Op {
 		case "prim":
@@ -227,22 +264,37 @@ func realize(h []MStep, v int) ([]byte, []mark, error) {
 			f.tryAt = a.tryL()
 		case "throw":
 			a.op(THROW)
-			j := len(frames) - 1 - s.A
-			if j < 0 || frames[j].tryAt < 0 {
-				return nil, nil, fmt.Errorf("step %d: throw without a handler", i+1)
+			if err := caught(s.A); err != nil {
+				return nil, nil, false, fmt.Errorf("step %d: %v", i+1, err)
 			}
-			for k := len(frames) - 1; k > j; k-- {
-				loose = append(loose, frames[k].jmpAt*2)
-				if frames[k].tryAt >= 0 {
-					loose = append(loose, frames[k].tryAt*2)
-				}
+		case "pickitem":
+			if s.Kd == "map" {
+				a.pushInt(int64(s.B))
+			} else {
+				a.pushInt(int64(s.A - 1))
 			}
-			frames = frames[:j+1]
-			a.fix(frames[j].tryAt, 0, a.pos()) // catch block starts here
-			frames[j].tryAt = -1
-			a.op1(ENDTRY, 2)
+			a.op(PICKITEM)
+		case "setitem_oor", "pickitem_oor", "pickmap_missing":
+			switch s.Op {
+			case "setitem_oor":
+				a.pushInt(oorIndex(s.A - 1))
+				a.op(SWAP, SETITEM)
+			case "pickitem_oor":
+				a.pushInt(oorIndex(s.A - 1))
+				a.op(PICKITEM)
+			default:
+				a.pushInt(int64(s.A))
+				a.op(PICKITEM)
+			}
+			if s.B < 0 { // no handler anywhere: the model says FAULT, nothing follows
+				expectFault = true
+				break steps
+			}
+			if err := caught(s.B); err != nil {
+				return nil, nil, false, fmt.Errorf("step %d: %v", i+1, err)
+			}
 		default:
-			return nil, nil, fmt.Errorf("step %d: unknown model action %q", i+1, s.Op)
+			return nil, nil, false, fmt.Errorf("step %d: unknown model action %q", i+1, s.Op)
 		}
 		marks = append(marks, mark{Off: a.pos(), Refs: s.Refs, Walked: s.Walked, Step: i + 1, Op: s.Op})
 	}
@@ -259,5 +311,5 @@ func realize(h []MStep, v int) ([]byte, []mark, error) {
 	for _, l := range loose {
 		a.fix(l/2, l%2, end)
 	}
-	return a.b, marks, nil
+	return a.b, marks, expectFault, nil
 }
